@@ -26,7 +26,7 @@ def P(pid, units, text, note, lemmas=(), modules=SO_MODS, assumptions=(), truste
                       drops=['X1 logger calls', 'X2 py2 branches', 'X3 clock/random as fresh symbolic values', 'X7 regions of _onTick by statement'])
 
 
-P('C01', ['msg.append_entries', 'applyLogEntries', 'doApplyCommand', 'sendAppendEntries', 'tick.leader', 'msg.next_node_idx',
+P('C01', ['getEntries', 'msg.append_entries', 'applyLogEntries', 'doApplyCommand', 'sendAppendEntries', 'tick.leader', 'msg.next_node_idx',
           'loadDumpFile', 'checkCommandsToApply'],
   'Per-function contracts, proved for all inputs on the real AST, for every mechanism the property is anchored in: follower accepts '
   'append_entries only on a matching predecessor and removes an entry only on conflict (R6,R7), commits only the verified prefix '
@@ -61,7 +61,7 @@ P('C03', ['msg.request_vote', 'msg.response_vote', 'tick.election', 'tick.leader
   'de-duplicated per voter in the code; with at-most-once delivery of each response (T-TRANSPORT) this is sound, and the assumption is listed.',
   lemmas=['L-ELECT'], assumptions=[A_RAFT, 'T-TRANSPORT: each response_vote is delivered at most once'])
 
-P('C04', ['tick.leader', 'tick.not-leader', 'msg.next_node_idx', 'msg.append_entries', 'applyLogEntries', 'loadDumpFile'],
+P('C04', ['getEntries', 'tick.leader', 'tick.not-leader', 'msg.next_node_idx', 'msg.append_entries', 'applyLogEntries', 'loadDumpFile'],
   'R9 with its loop invariant (commit advances only to an entry matched by a majority of voters and of the current term), R10 '
   '(matchIndex only grows, only from a success reply), R6-R8 on the follower (no deletion without conflict, commit within the '
   'verified prefix, never lowered), monotone applied index, and a frame obligation: the set of functions that assign the commit or '
@@ -86,7 +86,7 @@ P('C10', ['changeCluster', 'doChangeCluster', 'checkCommandsToApply.membership',
   'Follower-side apply-on-append / rollback-on-truncate loops (O10.3) are loop contracts in unit msg.append_entries.membership. Safety of single-server changes across nodes is ' + A_RAFT + ' extended to membership.',
   assumptions=[A_RAFT, 'I9 as quantified hypothesis', 'observers never carry member addresses (O14.1)'])
 
-P('C11', ['replicated.newFunc', 'sendAppendEntries', 'msg.append_entries', 'doApplyCommand', 'applyCommand', 'tick.leader'],
+P('C11', ['getEntries', 'replicated.newFunc', 'sendAppendEntries', 'msg.append_entries', 'doApplyCommand', 'applyCommand', 'tick.leader'],
   'Batching (non-empty contiguous batch, O11.2), the big-entry chunk loop as a loop contract (first chunk start, finish exactly on the '
   'last chunk, each chunk the slice at its position, O11.3), follower reassembly (O11.4), decode/dispatch of the three command shapes '
   '(O11.1), and no exception escaping the send loop, the handler or the apply path (O11.5), for all sizes.',
@@ -120,7 +120,7 @@ P('C17', ['replicated.newFunc', 'applyLogEntries', 'doApplyCommand', 'loadDumpFi
   bounded=['O17.1/O17.2/O17.7 (id enumeration in __init__, name table in __onSetCodeVersion, dispatch through the wrapper): exhaustive native '
            'enumeration over 160 generated old/new class pairs (<=2 object methods + 1 consumer method, versions in {0,1,2,3}), bounded, not proved'])
 
-P('C18', ['tick.election', 'msg.request_vote', 'msg.response_vote', 'tick.leader', 'hasQuorum', 'checkCommandsToApply', 'doChangeCluster'],
+P('C18', ['node-notifications', 'tick.election', 'msg.request_vote', 'msg.response_vote', 'tick.leader', 'hasQuorum', 'checkCommandsToApply', 'doChangeCluster'],
   'A node without own address never becomes candidate, never answers a vote request and stays FOLLOWER (O18.1); commit, fallback and '
   'has-quorum outcomes are independent of observers\' data (O18.2, proved by re-evaluating the rule with observers\' values havoc\'d); '
   'submissions through a non-leader are forwarded per C02.',
